@@ -180,11 +180,65 @@ def roundtrip(ctx, sut, fpm, element, case, kind):
         check_ast(ctx, sut, element, text, case)
 
 
+def shared_wrappers(ctx, sut, rng, serial):
+    """One `Property` object declared under more than one name: twice in one element, in two elements, in two
+    model classes (with and without a redundant explicit source).  Every user's repr must rebuild it; the
+    oracle is `==` both ways only (the wrapper's `name` is shared state, known finding F25 of C08)."""
+    leaf = gen_dsl.build(gen_dsl.Gen(rng, max_depth=0, classes=False, share=0.0).spec(0))
+    required = rng.random() < 0.5
+    first_name, second_name = rng.sample(["first", "second", "id", "ident", "key", "other", "a", "b"], k=2)
+    explicit = rng.choice([None, first_name, "json-name"])
+    check_shared(ctx, sut, leaf, serial % 3, first_name, second_name, explicit, required, serial, rng.random() < 0.5)
+
+
+def check_shared(ctx, sut, leaf, shape, first_name, second_name, explicit, required, serial, flip):
+    users = []
+    try:
+        shared = sut.Property(leaf, required=required, source=explicit)
+        if shape == 0:
+            users.append(("same element", sut.Element(properties={first_name: shared, second_name: shared})))
+        elif shape == 1:
+            users.append(("first user", sut.Element(properties={first_name: shared})))
+            users.append(("second user", sut.Element(properties={second_name: shared})))
+            if flip:
+                users.reverse()
+        else:
+            left = sut.Object.inline(f"Left{serial}", properties={first_name: shared})
+            right = sut.Object.inline(f"Right{serial}", properties={second_name: shared})
+            for model in (left, right):
+                for attr, prop in model.properties.items():
+                    users.append((f"{model.__name__}.{attr}", sut.Element(properties={attr: prop})))
+    except Exception as exc:  # pylint: disable=broad-except
+        ctx.count("shared_wrappers.build_failed." + type(exc).__name__)
+        return
+    case = {"shared_wrapper": {"shape": shape, "names": [first_name, second_name], "source": explicit,
+                               "required": required, "leaf": repr(leaf), "flip": flip}}
+    for label, element in users:
+        ctx.evaluation()
+        ctx.count("shared_wrappers.users")
+        text = repr(element)
+        try:
+            rebuilt = eval(text, namespace_for(sut, element))  # pylint: disable=eval-used
+            equal = rebuilt == element and element == rebuilt
+        except Exception as exc:  # pylint: disable=broad-except
+            ctx.witness("eval_raised", case, f"{label}: {type(exc).__name__}: {exc!r}; repr={text[:300]}")
+            continue
+        if not equal:
+            got = {k: (p.source, p.required) for k, p in element.properties.items()}
+            new = {k: (p.source, p.required) for k, p in rebuilt.properties.items()}
+            ctx.witness("not_equal", case, f"{label}: repr {text[:200]} rebuilds (source, required) {new}, "
+                                           f"the original has {got}")
+        else:
+            ctx.count("shared_wrappers.rebuilt_equal")
+
+
 def run_shard(ctx):
     from vlib import fingerprint as fpm  # pylint: disable=import-outside-toplevel
     from vlib import sut  # pylint: disable=import-outside-toplevel
 
     rng = ctx.rng
+    for idx in range(max(30, ctx.params["trees"] // 10)):
+        shared_wrappers(ctx, sut, rng, idx)
     for idx in range(ctx.params["trees"]):
         gen = gen_dsl.Gen(rng, max_depth=rng.choice([0, 1, 1, 2, 3]), share=0.05, renames=0.5,
                           explicit_required=0.4, defaults=0.3)
@@ -233,6 +287,12 @@ def replay(case, ctx):
     from vlib import fingerprint as fpm  # pylint: disable=import-outside-toplevel
     from vlib import sut  # pylint: disable=import-outside-toplevel
 
+    if "shared_wrapper" in case:
+        info = case["shared_wrapper"]
+        leaf = eval(info["leaf"], dict(sut.NAMESPACE))  # pylint: disable=eval-used
+        check_shared(ctx, sut, leaf, info["shape"], info["names"][0], info["names"][1], info["source"],
+                     info["required"], 0, info.get("flip", False))
+        return
     element = gen_dsl.build(case["spec"])
     roundtrip(ctx, sut, fpm, element, {"spec": case["spec"]}, "elements")
     for child in list(sut.get_children(element))[:30]:
